@@ -238,4 +238,32 @@ var propSpecs = []propSpec{
 		assume:  []string{"sync.Pool returns the most recently released context (the case the 'starts empty' clause is about)"},
 		stubs:   append(append([]string{}, stdStubs...), "strconv.ParseInt/ParseUint/ParseBool: executed from their own SSA; strconv.ParseFloat: the real function on concrete strings; strconv.ErrSyntax/ErrRange: opaque distinct error values"),
 	},
+	{
+		id: "C06",
+		runs: []runSpec{
+			{dir: "mux", entry: "ZZC06", quick: []int{0,1,2,3,4,5,10,11,12,13,14,15,20,21,22,23,24,25,30,31,32,33,34,35,40,41,42,43,44,45,50,51,52,53,54,55,1000,1002,1020,1022,1030,1032}, thorough: []int{0,1,2,3,4,5,10,11,12,13,14,15,20,21,22,23,24,25,30,31,32,33,34,35,40,41,42,43,44,45,50,51,52,53,54,55,1000,1002,1020,1022,1030,1032,100,101,102,110,111,112,130,131,132}},
+		},
+		covers:  []string{"interleaving"},
+		race:    true,
+		bounds:  "router created with WithLock(true) holding 3 routes; 2 logical threads: one writer (Handle that splits an untouched route's node, Handle of a method on the toggled route, Remove, Remove+Handle toggle, Clean, a Handle rejected as ambiguous) x one reader (ServeHTTP of the toggled route with GET and POST, of an untouched literal route, of an untouched parameter route, Routes(), strict URL), all 36 pairs; 6 two-request readers; the schedule is a symbolic choice at every lock operation and every schedule at that granularity is explored; a happens-before monitor (vector clocks over lock/unlock, pool put/get, thread start/join) checks every heap access of the interpreted code; each response must be one a sequential router could produce",
+		boundsT: "as quick plus 9 scenarios with 3 threads (two writers and a reader)",
+		outside: "more threads or operations per thread; preemption inside a critical section is covered by the race monitor, not by the functional clause; Router.Use concurrent with anything; user code that reads Node().Methods()/AllowHeader() of a route while that route's methods are being changed; weak-memory effects beyond the Go memory model's definition of a data race",
+		assume:  []string{"sync.RWMutex and sync.Pool behave as the Go memory model documents (engine models)"},
+		stubs:   append(append([]string{}, stdStubs...), "sync.RWMutex: engine model (blocking, happens-before edges unlock->lock); logical threads scheduled at synchronisation operations only"),
+	},
+	{
+		id: "C07",
+		runs: []runSpec{
+			{dir: "mux", entry: "ZZC07Seq", quick: []int{1, 2}, thorough: []int{1, 2, 3}},
+			{dir: "mux", entry: "ZZC07Pool", quick: []int{6}, thorough: []int{8}},
+			{dir: "mux", entry: "ZZC07Par", quick: []int{0, 1, 2, 10, 12}, thorough: []int{0, 1, 2, 10, 12}},
+		},
+		covers:  []string{"foreign-activity", "pooled-request-served", "par-two-routers", "par-router-and-hosts", "par-build-and-serve", "par-requests"},
+		race:    true,
+		bounds:  "sequential: a brand-new router (with/without WithTrace) is observed (OPTIONS * Allow, a 404, Routes(), Allow after one registration) before and after every sequence of <= 2 operations from 8 on other routers, a Hosts matcher and a Group; pooled contexts: two consecutive requests with symbolic paths <= 6 bytes on the backtracking table; concurrent (logical threads + happens-before monitor over every heap access): two routers registering/removing in parallel, a router and a Hosts matcher, one router being built and cleaned while another serves, two parallel requests with symbolic parameter values on one quiescent router with and without WithLock",
+		boundsT: "foreign sequences of <= 3 operations, pooled paths <= 8 bytes",
+		outside: "more than two concurrent requests; Groups used concurrently; weak-memory effects beyond the Go memory model's race definition",
+		assume:  []string{"sync.Pool hands a released context to the next request (single-goroutine runtime behaviour between GCs)"},
+		stubs:   append(append([]string{}, stdStubs...), "logical threads scheduled at synchronisation operations; happens-before monitor at field/element granularity and whole-map granularity for maps"),
+	},
 }
